@@ -137,8 +137,9 @@ func payloadPool(w *appx.World) []*shmsg.Message {
 	gb := (*g)[0].Compress()
 	offSubgroup := offSubgroupG2Point()
 	for _, eon := range []uint64{0, 1, 2, math.MaxUint64} {
-		for _, recv := range [][][]byte{nil, {a(1)}, {short}, {long}, {a(0)}, {a(1), a(1)}, {a(1), a(2)}, {a(foreignIdx)}, {{}}} {
-			for _, evals := range [][][]byte{nil, {{1}}, {{1}, {2}}, {{}}, {nil, nil, nil}} {
+		// (the last three: a valid receiver first, then one that must make the whole message fail)
+		for _, recv := range [][][]byte{nil, {a(1)}, {short}, {long}, {a(0)}, {a(1), a(1)}, {a(1), a(2)}, {a(foreignIdx)}, {{}}, {a(2), a(foreignIdx)}, {a(2), a(1)}, {a(0), a(2), a(0)}} {
+			for _, evals := range [][][]byte{nil, {{1}}, {{1}, {2}}, {{}}, {nil, nil, nil}, {{1}, {2}, {3}}} {
 				add(&shmsg.Message{Payload: &shmsg.Message_PolyEval{PolyEval: &shmsg.PolyEval{Eon: eon, Receivers: recv, EncryptedEvals: evals}}})
 			}
 			add(&shmsg.Message{Payload: &shmsg.Message_Accusation{Accusation: &shmsg.Accusation{Eon: eon, Accused: recv}}})
